@@ -153,6 +153,26 @@ def check_case(ctx, ds, labels_name, n, schemes, score_with_library=True):
                                       float(sums[ci]), lib_score)
                         break
             ctx.count('candidate_sums', len(cands))
+    # histories: every ordered pair of schemes requested one after the other on the same matrices (a table must
+    # not depend on what was asked before: one-slot caches, memoisation keyed on too little)
+    if len(schemes) <= 20 and k >= 2:
+        objs = [(s, mk_scheme(s), refmodel.table_array(order, refmodel.ref_table(universe, ds, s[0], s[1]))) for s in schemes]
+        for s1, o1, _ in objs:
+            for s2, o2, exp2 in objs:
+                if s1 is s2:
+                    continue
+                ctx.evals += 2
+                try:
+                    _lib['P'].pairwise_cost_matrix(pos, o1)
+                    got2 = _lib['P'].pairwise_cost_matrix(pos, o2)
+                except Exception as e:
+                    ctx.violation('table-raises', case(ds, labels_name, n, s2, {'after_scheme': s1}), None, None, exc=e)
+                    continue
+                if got2.shape != exp2.shape or not np.allclose(got2, exp2, rtol=0, atol=1e-9 * max(1.0, float(np.abs(exp2).max()))):
+                    ctx.violation('table-depends-on-the-previous-request', case(ds, labels_name, n, s2, {'after_scheme': s1}),
+                                  got2, exp2)
+                    break
+        ctx.count('ordered_scheme_pairs', len(objs) * (len(objs) - 1))
     ctx.sample({'dataset': ds, 'labels': labels_name, 'schemes': len(schemes), 'id_order': order})
 
 
@@ -174,6 +194,8 @@ def run_shard(sh):
 def replay(ctx, c):
     ds = tuple(tuple(tuple(b) for b in r) for r in c['dataset'])
     schemes = [(tuple(c['scheme'][0]), tuple(c['scheme'][1]))] if c.get('scheme') else [spaces.UNIFYING]
+    if c.get('after_scheme'):
+        schemes = [(tuple(c['after_scheme'][0]), tuple(c['after_scheme'][1]))] + schemes
     check_case(ctx, ds, c['labels'], c['n'], schemes)
 
 
